@@ -570,7 +570,10 @@ def session_forms(cur, sdl_text, B, dB):
         execute(ctx, f'START MIGRATION TO {{ {sdl_text} }}')
         log = []
         h = zlib.crc32(sdl_text.encode())
-        for k in range(40):
+        t_int = time.time()
+        for k in range(12):
+            if time.time() - t_int > 20:      # wall budget per case; POPULATE completes the rest
+                break
             execute(ctx, 'DESCRIBE CURRENT MIGRATION AS JSON')
             mstate = ctx.state.current_tx().get_migration_state()
             if not mstate.last_proposed:
